@@ -257,7 +257,7 @@ def main(argv):
             n = int(1600 * a.scale)
         else:
             cfgs = (a.configs.split(",") if a.configs else ALL_CONFIGS)
-            n = int(60000 * a.scale)
+            n = int(600000 * a.scale)
         exes = build_many(cfgs)
         m = run_sharded("c17", "gen", (n // NCPU + 1, True), [(c, exes[c]) for c in cfgs], a.seed, timeout=3600)
         rep.merge(m)
